@@ -216,6 +216,9 @@ func c04(r *Report) propMeta {
 	r.Rule("C04.R11", "E20 event agreement: what the cylinder group workers read is emitted")
 	r.EventAgreement("events", 1, "cylinder/workers/group")
 
+	r.Rule("C04.lint", "E8 module lint: no nondeterminism / process-local state in x/tss")
+	r.ModuleLint("module-lint", "tss", 20)
+
 	return propMeta{
 		Decided: []string{
 			"R1 each DKG handler writes only when group.Status is its round, the member id belongs to the sender, nothing was submitted before, and the round's verification passed; the next round is queued exactly at count == group.Size (counted after the write); all complaints of one message name one complainant",
@@ -230,6 +233,7 @@ func c04(r *Report) propMeta {
 			"R10 the errors DecryptSecretShare can return originate only from the ciphertext length check and the AES/HKDF primitives (error-origin census): a value-dependent rejection of the plaintext would turn a complaint about a deliberately out-of-range share into a FAILED complaint (seed C04-5)",
 			"R11 every (event type, attribute key) pair the cylinder group workers read (create_group / round1_success / round2_success . group_id) is emitted by x/tss",
 			"R12 the PendingGroups query, which a restarted cylinder uses to decide what to (re)submit, looks up the round-1 record only while the group is in ROUND_1, the round-2 record only in ROUND_2 and confirm/complaint only in ROUND_3 (seed C04-7: a restarted daemon regenerated its secrets after its commitments were on chain and was blamed)",
+			"lint: the determinism lint (incl. writes to memory held by long-lived objects) over everything reachable from the handlers and blockers of x/tss",
 		},
 		Undecided: []string{"that consistent commitments imply a shared key any threshold subset can use (algebra)", "'an honest member is never marked malicious' (needs the algebra behind R3)", "expiry interleavings"},
 		Assume:    []string{"secp256k1 / elgamal / schnorr primitives of pkg/tss", "msg handlers atomic"},
